@@ -227,6 +227,20 @@ impl Sim {
         w.commit()
     }
 
+    /// Several modifications of the same entry, one after the other, in ONE write transaction.
+    pub async fn modify_uuid_seq(
+        &mut self,
+        uuid: Uuid,
+        mls: &[ModifyList<ModifyInvalid>],
+    ) -> Result<(), OperationError> {
+        let ct = self.ct();
+        let mut w = self.idms.proxy_write(ct).await?;
+        for ml in mls {
+            w.qs_write.internal_modify_uuid(uuid, ml)?;
+        }
+        w.commit()
+    }
+
     pub fn person_entry(name: &str, uuid: Uuid) -> Entry<EntryInit, EntryNew> {
         entry_init!(
             (Attribute::Class, EntryClass::Object.to_value()),
